@@ -1,9 +1,998 @@
+/-
+  SH.Props.C28 — PromQL expressions print to text that parses back to the same expression.
+
+  Property (properties.jsonl C28): "For every expression the parser accepts, printing it and parsing the printed text
+  yields an equivalent syntax tree (same operators, operands, grouping, matchers, ranges, offsets and StatsHouse
+  extensions), and the parser never panics on arbitrary input."
+
+  Proved here, over the token-level model SH.Model.PromSyntax (printer = printer.go after fixes/C28-printer-roundtrip.diff,
+  parser = precedence climbing over the tables regenerated from parse.y):
+
+    parse_print          ∀ e, wf e → parse (printExpr .fixed e) = some (norm e)
+                         (`wf` = the shapes the parser produces, `norm` only moves the matcher that repeats the metric
+                         name to the end and drops its duplicates: normSel_* show name, modifiers and matcher SET are kept)
+    old_printer_*        `decide` witnesses that the printer before the fix violates the property
+    zero_range_unprintable   the remaining known finding (a 0-second range has no printable form)
+
+  Not proved (checked by the correspondence on every generated case instead): that every tree `parse` returns is `wf`
+  (the driver evaluates `wf` on each tree the model parser returns and the harness expects `wf 1` unless the tree holds
+  a zero duration), the lexical round trip of numbers / strings / durations, and "never panics" (direct oracle only).
+-/
 import SH.Model.PromSyntax
+set_option linter.unusedSimpArgs false
 namespace SH.Props.C28
 open SH.PromSyntax
 
-theorem prec_levels :
-    BinOp.ldefault.prec = 1 ∧ BinOp.lor.prec = 2 ∧ BinOp.land.prec = 3 ∧ BinOp.lunless.prec = 3 ∧
-    BinOp.eqlc.prec = 4 ∧ BinOp.add.prec = 5 ∧ BinOp.mul.prec = 6 ∧ BinOp.pow.prec = 7 := by decide
+theorem sepBy_one (sep : Tok) (x : List Tok) : sepBy sep [x] = x := rfl
+theorem sepBy_cons2 (sep : Tok) (x y : List Tok) (ys : List (List Tok)) :
+    sepBy sep (x :: y :: ys) = x ++ sep :: sepBy sep (y :: ys) := rfl
+
+theorem sepBy_cons_ne (sep : Tok) (x : List Tok) (l : List (List Tok)) (h : l ≠ []) :
+    sepBy sep (x :: l) = x ++ sep :: sepBy sep l := by
+  cases l with
+  | nil => exact absurd rfl h
+  | cons y ys => rfl
+
+theorem parseOffList_print (l : List Int) (hl : l ≠ []) (h0 : ∀ x ∈ l, x ≠ 0) (rest : List Tok) :
+    parseOffList (sepBy .comma (l.map printDurS) ++ .rb :: rest) = some (l, rest) := by
+  induction l with
+  | nil => exact absurd rfl hl
+  | cons x xs ih =>
+    have hx : x ≠ 0 := h0 x (by simp)
+    have hna : x.natAbs ≠ 0 := by omega
+    cases xs with
+    | nil =>
+      by_cases hneg : x < 0
+      · have : (-(x.natAbs : Int)) = x := by omega
+        simp [sepBy, printDurS, signToks, hneg, durTok, hna, parseOffList, this]
+      · have : ((x.natAbs : Int)) = x := by omega
+        simp [sepBy, printDurS, signToks, hneg, durTok, hna, parseOffList, this]
+    | cons y ys =>
+      have ih' := ih (by simp) (fun z hz => h0 z (by simp [hz]))
+      rw [List.map_cons, List.map_cons, sepBy_cons2, ← List.map_cons]
+      by_cases hneg : x < 0
+      · have : (-(x.natAbs : Int)) = x := by omega
+        simp only [printDurS, signToks, hneg, durTok, hna, if_true, if_false, List.append_assoc, List.cons_append, List.nil_append, parseOffList, ih', this]
+      · have : ((x.natAbs : Int)) = x := by omega
+        simp only [printDurS, signToks, hneg, durTok, hna, if_true, if_false, List.append_assoc, List.cons_append, List.nil_append, parseOffList, ih', this]
+
+theorem parseLabelList_print (ls : List String) (hl : ls ≠ []) (h : ∀ l ∈ ls, okLabel l = true) (rest : List Tok) :
+    parseLabelList (sepBy .comma (ls.map (fun l => [wordTok l])) ++ .rp :: rest) = some (ls, rest) := by
+  induction ls with
+  | nil => exact absurd rfl hl
+  | cons x xs ih =>
+    have hx : labelOfTok (wordTok x) = some x := by have := h x (by simp); simpa [okLabel] using this
+    cases xs with
+    | nil => simp only [List.map_cons, List.map_nil, sepBy_one, List.cons_append, List.nil_append, wordTok] at hx ⊢
+             simp only [parseLabelList, hx]
+    | cons y ys =>
+      have ih' := ih (by simp) (fun z hz => h z (by simp [hz]))
+      rw [List.map_cons, sepBy_cons_ne _ _ _ (by simp)]
+      generalize hR : sepBy Tok.comma (List.map (fun l => [wordTok l]) (y :: ys)) ++ Tok.rp :: rest = R at ih'
+      have hRw : ∃ R', R = wordTok y :: R' := by
+        subst hR
+        cases ys with
+        | nil => exact ⟨_, rfl⟩
+        | cons z zs => rw [List.map_cons, sepBy_cons_ne _ _ _ (by simp)]; exact ⟨_, rfl⟩
+      obtain ⟨R', rfl⟩ := hRw
+      simp only [List.cons_append, List.nil_append, List.append_assoc]
+      rw [hR]
+      simp only [wordTok] at hx ih' ⊢
+      simp only [parseLabelList, hx, ih']
+
+theorem parseLabels_print (ls : List String) (h : ∀ l ∈ ls, okLabel l = true) (rest : List Tok) :
+    parseLabels (printLabels ls ++ rest) = some (ls, rest) := by
+  cases ls with
+  | nil => simp [printLabels, sepBy, parseLabels]
+  | cons x xs =>
+    have := parseLabelList_print (x :: xs) (by simp) h rest
+    cases xs with
+    | nil =>
+      simp only [printLabels, List.map_cons, List.map_nil, sepBy_one, List.cons_append, List.nil_append, wordTok, List.append_assoc] at this ⊢
+      simp only [parseLabels, this]
+    | cons y ys =>
+      simp only [printLabels]
+      rw [List.map_cons, sepBy_cons_ne _ _ _ (by simp)] at this ⊢
+      simp only [List.cons_append, List.nil_append, wordTok, List.append_assoc] at this ⊢
+      simp only [parseLabels, this]
+
+/-! matchers -/
+
+theorem parseMatcher_print (m : Matcher) (R : List Tok) : parseMatcher (printMatcher m ++ R) = some (m, R) := by
+  obtain ⟨n, ty, v⟩ := m
+  cases ty <;> simp [printMatcher, matchTok, parseMatcher, mkMatcher, matchTyOfTok, MatchTy.isRegex]
+
+theorem parseMatcherList_print (ms : List Matcher) (hl : ms ≠ []) (rest : List Tok) :
+    ∀ f, ms.length ≤ f → parseMatcherList f (sepBy .comma (ms.map printMatcher) ++ .rk :: rest) = some (ms, rest) := by
+  induction ms with
+  | nil => exact absurd rfl hl
+  | cons x xs ih =>
+    intro f hf
+    cases f with
+    | zero => simp at hf
+    | succ f =>
+    cases xs with
+    | nil =>
+      simp only [List.map_cons, List.map_nil, sepBy_one, parseMatcherList, parseMatcher_print]
+    | cons y ys =>
+      have ih' := ih (by simp) f (by simp at hf ⊢; omega)
+      rw [List.map_cons, sepBy_cons_ne _ _ _ (by simp)]
+      generalize hR : sepBy Tok.comma (List.map printMatcher (y :: ys)) ++ Tok.rk :: rest = R at ih'
+      have hRw : ∃ R', R = Tok.word .ident y.name :: R' := by
+        subst hR
+        cases ys with
+        | nil => exact ⟨_, rfl⟩
+        | cons z zs => rw [List.map_cons, sepBy_cons_ne _ _ _ (by simp)]; exact ⟨_, rfl⟩
+      obtain ⟨R', rfl⟩ := hRw
+      simp only [List.append_assoc, List.cons_append, List.nil_append]
+      rw [hR]
+      simp only [parseMatcherList, parseMatcher_print, ih']
+
+/-! binary-operator modifiers -/
+
+def kwText (name : String) : String :=
+  match SH.Gen.C28.keywords.find? (fun e => e.2 == name) with | some (w, _) => w | none => name
+
+theorem kwTok_eq (n : String) : kwTok n = .word (.kw n) (kwText n) := rfl
+
+def modKws : List String := ["BOOL", "ON", "IGNORING", "GROUP_LEFT", "GROUP_RIGHT"]
+
+/-- the token after a binary operator's modifiers (the first token of the right operand) is not itself a modifier keyword -/
+def noModStart : List Tok → Bool
+  | .word (.kw n) _ :: _ => !modKws.contains n
+  | _ => true
+
+theorem parseGroup_print (b on : Bool) (ls : List String) (m : BinMod) (hm : wfMod m = true) (rest : List Tok)
+    (hr : noModStart rest = true) :
+    parseGroup b on ls (printCard m ++ rest) = some (⟨b, m.card, on, ls, m.incl⟩, rest) := by
+  obtain ⟨mb, card, mon, labels, incl⟩ := m
+  simp only [wfMod, Bool.and_eq_true, decide_eq_true_eq, List.all_eq_true, Bool.or_eq_true, bne_iff_ne, ne_eq,
+    List.isEmpty_iff] at hm
+  obtain ⟨⟨⟨hc, hi⟩, _⟩, hincl⟩ := hm
+  have hcases : card = 0 ∨ card = 1 ∨ card = 2 := by omega
+  rcases hcases with rfl | rfl | rfl
+  · have : incl = [] := by simpa using hi
+    subst this
+    cases rest with
+    | nil => simp [printCard, parseGroup]
+    | cons t ts =>
+      cases t <;> simp [printCard, parseGroup]
+      rename_i k txt
+      cases k <;> simp [parseGroup]
+      rename_i n
+      simp [noModStart, modKws] at hr
+      simp [hr]
+  · simp only [printCard, kwTok_eq, if_true, List.cons_append, parseGroup]
+    have h := parseLabels_print incl hincl rest
+    simp only [printLabels, List.cons_append, List.append_assoc, List.nil_append] at h ⊢
+    simp [h]
+  · simp only [printCard, kwTok_eq, List.cons_append, parseGroup]
+    have h := parseLabels_print incl hincl rest
+    simp only [printLabels, List.cons_append, List.append_assoc, List.nil_append] at h ⊢
+    simp [h]
+
+theorem parseOn_print (b : Bool) (m : BinMod) (hm : wfMod m = true) (rest : List Tok) (hr : noModStart rest = true) :
+    parseOn b ((if showMatching .fixed m then kwTok (if m.on then "ON" else "IGNORING") :: printLabels m.labels ++ printCard m else []) ++ rest)
+      = some (⟨b, m.card, m.on, m.labels, m.incl⟩, rest) := by
+  by_cases hs : showMatching .fixed m = true
+  · have hm' := hm
+    simp only [wfMod, Bool.and_eq_true, List.all_eq_true] at hm'
+    have hl := parseLabels_print m.labels hm'.1.2 (printCard m ++ rest)
+    have hg := parseGroup_print b m.on m.labels m hm rest hr
+    simp only [hs, if_true, kwTok_eq, List.cons_append, List.append_assoc]
+    cases hon : m.on <;> simp [parseOn, hl, hon] at hg ⊢ <;> exact hg
+  · have hs' : showMatching .fixed m = false := by simpa using hs
+    obtain ⟨mb, card, mon, labels, incl⟩ := m
+    simp only [wfMod, Bool.and_eq_true, decide_eq_true_eq, List.all_eq_true, Bool.or_eq_true, bne_iff_ne, ne_eq,
+      List.isEmpty_iff] at hm
+    simp [showMatching] at hs'
+    obtain ⟨⟨hl, hon⟩, hc1, hc2⟩ := hs'
+    have hc : card = 0 := by omega
+    subst hc hl hon
+    have hi : incl = [] := by simpa using hm.1.1.2
+    subst hi
+    simp only [showMatching]
+    cases rest with
+    | nil => simp [parseOn]
+    | cons t ts =>
+      cases t <;> simp [parseOn]
+      rename_i k txt
+      cases k <;> simp [parseOn]
+      rename_i n
+      simp [noModStart, modKws] at hr
+      simp [hr]
+
+theorem parseMods_print (m : BinMod) (hm : wfMod m = true) (rest : List Tok) (hr : noModStart rest = true) :
+    parseMods (printBinMod .fixed m ++ rest) = some (m, rest) := by
+  have ho := parseOn_print m.bool m hm rest hr
+  generalize hX : (if showMatching .fixed m then kwTok (if m.on then "ON" else "IGNORING") :: printLabels m.labels ++ printCard m else []) ++ rest = X at ho
+  have hb : noModStart X = true ∨ ∃ t X', X = .word (.kw (if m.on then "ON" else "IGNORING")) t :: X' := by
+    subst hX
+    by_cases hs : showMatching .fixed m = true
+    · right; simp only [hs, if_true, kwTok_eq, List.cons_append]; exact ⟨_, _, rfl⟩
+    · left; simp [hs, hr]
+  have hpb : parseBool X = (false, X) := by
+    rcases hb with hb | ⟨t, X', rfl⟩
+    · cases X with
+      | nil => rfl
+      | cons t ts =>
+        cases t <;> try rfl
+        rename_i k txt
+        cases k <;> try rfl
+        rename_i n
+        simp [noModStart, modKws] at hb
+        simp [parseBool, hb]
+    · cases m.on <;> simp [parseBool]
+  simp only [printBinMod, List.append_assoc, hX]
+  have hmeq : (⟨m.bool, m.card, m.on, m.labels, m.incl⟩ : BinMod) = m := by cases m; rfl
+  rw [hmeq] at ho
+  cases hbo : m.bool
+  · simp only [hbo] at ho
+    simp [parseMods, hpb, ho]
+  · simp only [hbo] at ho
+    simp [parseMods, kwTok_eq, parseBool, ho]
+
+/-! postfix modifiers -/
+
+/-- `rest` can follow a complete expression: end of input, `)`, `,` or a binary operator -/
+def inert : List Tok → Bool
+  | [] => true
+  | t :: _ => t == .rp || t == .comma || (binOpOfTok t).isSome
+
+theorem wordOp_offset (n : String) (h : (wordOp? n).isSome = true) : n ≠ "OFFSET" ∧ isGroupingKw n = false := by
+  constructor
+  · intro hn; subst hn; revert h; decide
+  · cases hg : isGroupingKw n with
+    | false => rfl
+    | true =>
+      simp [isGroupingKw] at hg
+      rcases hg with rfl | rfl <;> revert h <;> decide
+
+theorem postfixStep_inert (e : Expr) (rest : List Tok) (h : inert rest = true) : postfixStep e rest = .done := by
+  cases rest with
+  | nil => rfl
+  | cons t ts =>
+    cases t <;> simp [inert, binOpOfTok] at h <;> try rfl
+    rename_i k txt
+    cases k <;> simp [binOpOfTok] at h <;> try rfl
+    rename_i n
+    have := (wordOp_offset n (by simpa using h)).1
+    simp [postfixStep, this]
+
+theorem post_done (e : Expr) (rest : List Tok) (h : inert rest = true) (G : Nat) :
+    parsePostfix (G + 1) e rest = some (e, rest) := by
+  simp [parsePostfix, postfixStep_inert e rest h]
+
+theorem post_at (e e' : Expr) (a : AtMod) (ha : a ≠ .none) (h : setAt e a = some e') (G : Nat) (rest : List Tok) :
+    parsePostfix (G + 1) e (printAt a ++ rest) = parsePostfix G e' rest := by
+  cases a with
+  | none => exact absurd rfl ha
+  | ts n =>
+    by_cases hneg : n < 0
+    · have : (-(n.natAbs : Int)) = n := by omega
+      simp [parsePostfix, printAt, signToks, hneg, postfixStep, this, h, stepOpt]
+    · have : ((n.natAbs : Int)) = n := by omega
+      simp [parsePostfix, printAt, signToks, hneg, postfixStep, this, h, stepOpt]
+  | start => simp [parsePostfix, printAt, kwTok_eq, postfixStep, atOfKw, h, stepOpt]
+  | stop => simp [parsePostfix, printAt, kwTok_eq, postfixStep, atOfKw, h, stepOpt]
+
+theorem post_off (e e' : Expr) (o : Int) (ho : o ≠ 0) (h : addOffset e o = some e') (G : Nat) (rest : List Tok) :
+    parsePostfix (G + 1) e (printOffset true o ++ rest) = parsePostfix G e' rest := by
+  have hna : o.natAbs ≠ 0 := by omega
+  by_cases hneg : o < 0
+  · have : (-(o.natAbs : Int)) = o := by omega
+    simp [parsePostfix, printOffset, ho, kwTok_eq, printDurS, signToks, hneg, durTok, hna, postfixStep, this, h, stepOpt]
+  · have : ((o.natAbs : Int)) = o := by omega
+    simp [parsePostfix, printOffset, ho, kwTok_eq, printDurS, signToks, hneg, durTok, hna, postfixStep, this, h, stepOpt]
+
+theorem post_offex (e e' : Expr) (l : List Int) (hl : l ≠ []) (h0 : ∀ x ∈ l, x ≠ 0) (h : addOffsetList e l = some e')
+    (G : Nat) (rest : List Tok) :
+    parsePostfix (G + 1) e (printOffEx .fixed l ++ rest) = parsePostfix G e' rest := by
+  have hp := parseOffList_print l hl h0 rest
+  cases l with
+  | nil => exact absurd rfl hl
+  | cons x xs =>
+    simp only [List.map_cons] at hp
+    simp only [printOffEx, kwTok_eq, List.cons_append, List.append_assoc, List.nil_append, parsePostfix, postfixStep,
+      List.map_cons]
+    simp [hp, h, stepOpt]
+
+theorem post_range (e e' : Expr) (r : Nat) (hr : r ≠ 0) (h : mkRange e r 0 = some e') (G : Nat) (rest : List Tok) :
+    parsePostfix (G + 1) e (.lb :: durTok r :: .rb :: rest) = parsePostfix G e' rest := by
+  simp [parsePostfix, postfixStep, durTok, hr, h, stepOpt]
+
+theorem post_subrange (e e' : Expr) (r st : Nat) (hr : r ≠ 0) (hst : st ≤ 1) (h : mkRange e r st = some e')
+    (G : Nat) (rest : List Tok) :
+    parsePostfix (G + 1) e (.lb :: durTok r :: .colon :: ((if st = 0 then [] else [durTok st]) ++ .rb :: rest))
+      = parsePostfix G e' rest := by
+  have : st = 0 ∨ st = 1 := by omega
+  rcases this with rfl | rfl <;> simp [parsePostfix, postfixStep, durTok, hr, h, stepOpt]
+
+/-! fuel -/
+
+def kk : Expr → Nat
+  | .bin _ _ l _ => kk l + 1
+  | _ => 1
+
+mutual
+def need : Expr → Nat
+  | .num _ => 3
+  | .str _ => 3
+  | .vec s => (shownMatchers .fixed s).length + 6
+  | .mat s _ => (shownMatchers .fixed s).length + 7
+  | .sub e _ _ _ _ => need e + 3
+  | .par e => need e + kk e + 3
+  | .un _ x => need x + kk x + 2
+  | .bin _ _ l r => need l + need r + kk r + 2
+  | .agg _ _ _ a => needArgs a + 3
+  | .call _ a => needArgs a + 3
+def needArgs : Args → Nat
+  | .nil => 1
+  | .cons e r => need e + kk e + needArgs r + 2
+end
+
+def headOp : List Tok → Option BinOp
+  | t :: _ => binOpOfTok t
+  | [] => none
+
+/-- the operator that follows `e` (if any) leaves `e` intact -/
+def rstop (e : Expr) (rest : List Tok) : Bool :=
+  match headOp rest with
+  | some o => stopsBefore e o.prec
+  | none => true
+
+/-! ## generic parser steps -/
+
+theorem parseLoop_return (G p : Nat) (x : Expr) (rest : List Tok) (hi : inert rest = true)
+    (hs : ∀ o, headOp rest = some o → o.prec < p) : parseLoop (G + 1) p x rest = some (x, rest) := by
+  cases rest with
+  | nil => simp [parseLoop]
+  | cons t ts =>
+    cases hb : binOpOfTok t with
+    | none => simp [parseLoop, hb]
+    | some o =>
+      have := hs o (by simp [headOp, hb])
+      simp [parseLoop, hb, this]
+
+def notSign : List Tok → Bool
+  | .sym .add :: _ => false
+  | .sym .sub :: _ => false
+  | _ => true
+
+theorem parseExpr_atom (F p : Nat) (ts : List Tok) (h : notSign ts = true) :
+    parseExpr (F + 1) p ts =
+      match parseAtom F ts with
+      | some (a, ts1) => (match parsePostfix F a ts1 with
+        | some (a', ts2) => parseLoop F p a' ts2
+        | none => none)
+      | none => none := by
+  cases ts with
+  | nil => simp only [parseExpr] <;> rfl
+  | cons t ts' =>
+    cases t with
+    | sym o => cases o <;> simp [notSign] at h <;> (simp only [parseExpr] <;> rfl)
+    | _ => simp only [parseExpr] <;> rfl
+
+/-- what may follow a metric name: not `(` (call / aggregation), not `{`, not `by`/`without` -/
+def nameFollow : List Tok → Bool
+  | .lp :: _ => false
+  | .lk :: _ => false
+  | .word (.kw n) _ :: _ => !isGroupingKw n
+  | _ => true
+
+theorem isMetricIdent_num (v : Option String) (a b : Option Int) : isMetricIdent (.num v a b) = false := by
+  show SH.Gen.C28.metricIdentToks.contains "NUMBER" = false
+  decide
+
+theorem parseWord_sel (pa : List Tok → Option (Args × List Tok)) (F : Nat) (k : WKind) (t : String) (ts : List Tok)
+    (hk : isMetricIdent k = true) (hlp : ∀ ts', ts ≠ .lp :: ts') (hag : startsAgg ts = false) :
+    parseWordWith pa F k t ts = parseSelector F t ts := by
+  cases k with
+  | num v a b => simp [isMetricIdent_num] at hk
+  | ident =>
+    cases ts with
+    | nil => simp [parseWordWith]
+    | cons x xs => cases x <;> simp [parseWordWith] <;> exact absurd rfl (hlp xs)
+  | mident => simp [parseWordWith]
+  | kw n => simp [parseWordWith, hag, hk]
+
+theorem startsAgg_of_nameFollow (R : List Tok) (h : nameFollow R = true) : startsAgg R = false ∧ (∀ ts', R ≠ .lp :: ts') ∧ (∀ ts', R ≠ .lk :: ts') := by
+  cases R with
+  | nil => simp [startsAgg]
+  | cons t ts =>
+    cases t <;> simp [nameFollow, startsAgg] at h ⊢
+    rename_i k txt
+    cases k <;> simp [nameFollow, startsAgg] at h ⊢
+    exact h
+
+theorem mkSel_shown (s : Sel) : mkSel s.name (shownMatchers .fixed s) =
+    { normSel s with atm := .none, off := 0, offEx := [] } := by
+  by_cases hn : s.name = "" <;> simp [mkSel, shownMatchers, normSel, hn]
+
+theorem selHead_parse (s : Sel) (hok : okSel s = true) (F : Nat) (R : List Tok)
+    (hF : (shownMatchers .fixed s).length + 1 ≤ F) (hR : nameFollow R = true) :
+    parseAtom (F + 1) (printSelHead .fixed s ++ R) = some (.vec (mkSel s.name (shownMatchers .fixed s)), R) := by
+  obtain ⟨hag, hlp, hlk⟩ := startsAgg_of_nameFollow R hR
+  have hname : s.name = "" ∨ isMetricIdent (classifyKind s.name) = true := by
+    simp [okSel] at hok; exact hok.1
+  cases hsh : shownMatchers .fixed s with
+  | nil =>
+    by_cases hn : s.name = ""
+    · simp [printSelHead, hsh, hn, parseAtom, parseSelector, parseMatchers]
+    · have hk := hname.resolve_left hn
+      have hform : printSelHead .fixed s ++ R = Tok.word (classifyKind s.name) s.name :: R := by
+        simp [printSelHead, hsh, hn, nameToks, wordTok]
+      rw [hform]
+      simp only [parseAtom]
+      rw [parseWord_sel _ _ _ _ _ hk hlp hag]
+      cases R with
+      | nil => simp [parseSelector]
+      | cons t ts => cases t <;> simp [parseSelector] <;> exact absurd rfl (hlk ts)
+  | cons m ms =>
+    rw [hsh] at hF
+    have hml := parseMatcherList_print (m :: ms) (by simp) R F (by simp at hF ⊢; omega)
+    have hhead : ∃ X, sepBy Tok.comma (List.map printMatcher (m :: ms)) ++ Tok.rk :: R = Tok.word .ident m.name :: X := by
+      cases ms with
+      | nil => exact ⟨_, rfl⟩
+      | cons z zs => rw [List.map_cons, sepBy_cons_ne _ _ _ (by simp)]; exact ⟨_, rfl⟩
+    obtain ⟨X, hX⟩ := hhead
+    have hpm : parseMatchers F (sepBy Tok.comma (List.map printMatcher (m :: ms)) ++ Tok.rk :: R) = some (m :: ms, R) := by
+      rw [hX] at hml ⊢
+      simpa [parseMatchers] using hml
+    by_cases hn : s.name = ""
+    · have hform : printSelHead .fixed s ++ R = Tok.lk ::
+          (sepBy Tok.comma (List.map printMatcher (m :: ms)) ++ Tok.rk :: R) := by
+        simp [printSelHead, hsh, hn, nameToks]
+      rw [hform]
+      simp only [parseAtom, parseSelector]
+      rw [hpm, hn]
+    · have hk := hname.resolve_left hn
+      have hform : printSelHead .fixed s ++ R = Tok.word (classifyKind s.name) s.name :: Tok.lk ::
+          (sepBy Tok.comma (List.map printMatcher (m :: ms)) ++ Tok.rk :: R) := by
+        simp [printSelHead, hsh, hn, nameToks, wordTok]
+      rw [hform]
+      simp only [parseAtom]
+      rw [parseWord_sel _ _ _ _ _ hk (by simp) (by simp [startsAgg])]
+      simp only [parseSelector]
+      rw [hpm]
+
+/-! optional modifiers, each costs one unit of postfix fuel when present -/
+
+def atJ (a : AtMod) : Nat := if a = .none then 0 else 1
+def exJ (l : List Int) : Nat := if l = [] then 0 else 1
+def offJ (o : Int) : Nat := if o = 0 then 0 else 1
+
+theorem post_at_opt (e e' : Expr) (a : AtMod) (h : if a = .none then e' = e else setAt e a = some e')
+    (G : Nat) (rest : List Tok) :
+    parsePostfix (G + atJ a) e (printAt a ++ rest) = parsePostfix G e' rest := by
+  by_cases ha : a = .none
+  · subst ha; simp at h; subst h; simp [atJ, printAt]
+  · simp only [ha, if_false] at h
+    simp only [atJ, ha, if_false]
+    exact post_at e e' a ha h G rest
+
+theorem post_offex_opt (e e' : Expr) (l : List Int) (h0 : ∀ x ∈ l, x ≠ 0)
+    (h : if l = [] then e' = e else addOffsetList e l = some e') (G : Nat) (rest : List Tok) :
+    parsePostfix (G + exJ l) e (printOffEx .fixed l ++ rest) = parsePostfix G e' rest := by
+  by_cases hl : l = []
+  · subst hl; simp at h; subst h; simp [exJ, printOffEx]
+  · simp only [hl, if_false] at h
+    simp only [exJ, hl, if_false]
+    exact post_offex e e' l hl h0 h G rest
+
+theorem post_off_opt (e e' : Expr) (o : Int) (h : if o = 0 then e' = e else addOffset e o = some e')
+    (G : Nat) (rest : List Tok) :
+    parsePostfix (G + offJ o) e (printOffset true o ++ rest) = parsePostfix G e' rest := by
+  by_cases ho : o = 0
+  · subst ho; simp at h; subst h; simp [offJ, printOffset]
+  · simp only [ho, if_false] at h
+    simp only [offJ, ho, if_false]
+    exact post_off e e' o ho h G rest
+
+def selPost (s : Sel) : List Tok := printAt s.atm ++ printOffEx .fixed s.offEx ++ printOffset true s.off
+def selJ (s : Sel) : Nat := atJ s.atm + exJ s.offEx + offJ s.off
+
+theorem okSel_offEx (s : Sel) (h : okSel s = true) : ∀ x ∈ s.offEx, x ≠ 0 := by
+  simp [okSel] at h
+  exact h.2
+
+/-- the modifiers of a vector selector, applied to the bare selector the head parses to -/
+theorem selPost_vec (s : Sel) (hok : okSel s = true) (G : Nat) (rest : List Tok) :
+    parsePostfix (G + selJ s) (.vec (mkSel s.name (shownMatchers .fixed s))) (selPost s ++ rest)
+      = parsePostfix G (.vec (normSel s)) rest := by
+  rw [mkSel_shown]
+  generalize hn : normSel s = ns
+  have hat : ns.atm = s.atm := by subst hn; by_cases h : s.name = "" <;> simp [normSel, h]
+  have hoff : ns.off = s.off := by subst hn; by_cases h : s.name = "" <;> simp [normSel, h]
+  have hex : ns.offEx = s.offEx := by subst hn; by_cases h : s.name = "" <;> simp [normSel, h]
+  simp only [selPost, selJ, List.append_assoc]
+  rw [show G + (atJ s.atm + exJ s.offEx + offJ s.off) = (G + offJ s.off + exJ s.offEx) + atJ s.atm by omega]
+  rw [post_at_opt _ (.vec { ns with atm := s.atm, off := 0, offEx := [] }) s.atm
+      (by by_cases h : s.atm = .none <;> simp [h, setAt])]
+  rw [post_offex_opt _ (.vec { ns with atm := s.atm, off := 0, offEx := s.offEx }) s.offEx (okSel_offEx s hok)
+      (by by_cases h : s.offEx = [] <;> simp [h, addOffsetList])]
+  rw [post_off_opt _ (.vec { ns with atm := s.atm, off := s.off, offEx := s.offEx }) s.off
+      (by by_cases h : s.off = 0 <;> simp [h, addOffset])]
+  rw [← hat, ← hoff, ← hex]
+
+theorem selPost_mat (s : Sel) (r : Nat) (hok : okSel s = true) (hr : r ≠ 0) (G : Nat) (rest : List Tok) :
+    parsePostfix (G + selJ s + 1) (.vec (mkSel s.name (shownMatchers .fixed s)))
+        (.lb :: durTok r :: .rb :: (selPost s ++ rest))
+      = parsePostfix G (.mat (normSel s) r) rest := by
+  rw [mkSel_shown]
+  generalize hn : normSel s = ns
+  have hat : ns.atm = s.atm := by subst hn; by_cases h : s.name = "" <;> simp [normSel, h]
+  have hoff : ns.off = s.off := by subst hn; by_cases h : s.name = "" <;> simp [normSel, h]
+  have hex : ns.offEx = s.offEx := by subst hn; by_cases h : s.name = "" <;> simp [normSel, h]
+  rw [post_range _ (.mat { ns with atm := .none, off := 0, offEx := [] } r) r hr (by simp [mkRange, AtMod.isTs])]
+  simp only [selPost, selJ, List.append_assoc]
+  rw [show G + (atJ s.atm + exJ s.offEx + offJ s.off) = (G + offJ s.off + exJ s.offEx) + atJ s.atm by omega]
+  rw [post_at_opt _ (.mat { ns with atm := s.atm, off := 0, offEx := [] } r) s.atm
+      (by by_cases h : s.atm = .none <;> simp [h, setAt])]
+  rw [post_offex_opt _ (.mat { ns with atm := s.atm, off := 0, offEx := s.offEx } r) s.offEx (okSel_offEx s hok)
+      (by by_cases h : s.offEx = [] <;> simp [h, addOffsetList])]
+  rw [post_off_opt _ (.mat { ns with atm := s.atm, off := s.off, offEx := s.offEx } r) s.off
+      (by by_cases h : s.off = 0 <;> simp [h, addOffset])]
+  rw [← hat, ← hoff, ← hex]
+
+/-! what the printed text of a tree starts with -/
+
+def startOk (sign : Bool) : List Tok → Bool
+  | .word (.kw n) _ :: _ => !modKws.contains n
+  | .word _ _ :: _ => true
+  | .str _ _ _ :: _ => true
+  | .lp :: _ => true
+  | .lk :: _ => true
+  | .sym .add :: _ => sign
+  | .sym .sub :: _ => sign
+  | _ => false
+
+def isVec : Expr → Bool
+  | .vec _ => true
+  | _ => false
+
+theorem metricIdent_not_mod (n : String) (h : isMetricIdent (.kw n) = true) : modKws.contains n = false := by
+  cases hc : modKws.contains n with
+  | false => rfl
+  | true =>
+    simp [modKws] at hc
+    rcases hc with rfl | rfl | rfl | rfl | rfl <;> revert h <;> decide
+
+theorem aggOp_not_mod (n : String) (h : isAggOp n = true) : modKws.contains n = false := by
+  cases hc : modKws.contains n with
+  | false => rfl
+  | true =>
+    simp [modKws] at hc
+    rcases hc with rfl | rfl | rfl | rfl | rfl <;> revert h <;> decide
+
+theorem startOk_word (sign : Bool) (k : WKind) (t : String) (R : List Tok)
+    (h : ∀ n, k = .kw n → modKws.contains n = false) : startOk sign (.word k t :: R) = true := by
+  cases k with
+  | kw n => have := h n rfl; simp only [startOk, this]; rfl
+  | _ => simp [startOk]
+
+theorem startOk_selHead (sign : Bool) (s : Sel) (hok : okSel s = true) (R : List Tok) :
+    startOk sign (printSelHead .fixed s ++ R) = true := by
+  have hname : s.name = "" ∨ isMetricIdent (classifyKind s.name) = true := by
+    simp [okSel] at hok; exact hok.1
+  by_cases hn : s.name = ""
+  · cases hsh : shownMatchers .fixed s <;> simp [printSelHead, hsh, hn, nameToks, startOk]
+  · have hk := hname.resolve_left hn
+    have : ∃ X, printSelHead .fixed s ++ R = Tok.word (classifyKind s.name) s.name :: X := by
+      cases hsh : shownMatchers .fixed s <;> simp [printSelHead, hsh, hn, nameToks, wordTok]
+    obtain ⟨X, hX⟩ := this
+    rw [hX]
+    apply startOk_word
+    intro n hkn
+    rw [hkn] at hk
+    exact metricIdent_not_mod n hk
+
+theorem printSel_eq (s : Sel) : printSel .fixed s = printSelHead .fixed s ++ selPost s := by
+  simp [printSel, selPost]
+
+theorem printMat_eq (s : Sel) (r : Nat) : printMat .fixed s r = printSelHead .fixed s ++ .lb :: durTok r :: .rb :: selPost s := by
+  simp [printMat, selPost]
+
+/-- operands (sign = false) and all well-formed trees (sign = true) start with a token that begins an expression and
+    is not a modifier keyword -/
+theorem startOk_print (e : Expr) (hwf : wf e = true) (sign : Bool) (hs : sign = true ∨ isOperand e = true ∨ isVec e = true)
+    (R : List Tok) : startOk sign (printExpr .fixed e ++ R) = true := by
+  match e with
+  | .num n =>
+    cases hneg : n.neg
+    · simp [printExpr, printNum, hneg, numTok, startOk]
+    · rcases hs with rfl | h | h
+      · simp [printExpr, printNum, hneg, startOk]
+      · simp [isOperand, hneg] at h
+      · simp [isVec] at h
+  | .str v => simp [printExpr, startOk]
+  | .vec s => simp only [printExpr, printSel_eq, List.append_assoc]; exact startOk_selHead _ s (by simpa [wf] using hwf) _
+  | .mat s r =>
+    simp only [printExpr, printMat_eq, List.append_assoc]
+    exact startOk_selHead _ s (by simp [wf] at hwf; exact hwf.1) _
+  | .sub x r st a o =>
+    simp only [printExpr, List.append_assoc]
+    simp [wf] at hwf
+    exact startOk_print x hwf.1.1.1 sign (Or.inr (Or.inl hwf.1.1.2)) _
+  | .par x => simp [printExpr, startOk]
+  | .un n x =>
+    rcases hs with rfl | h | h
+    · cases n <;> simp [printExpr, startOk]
+    · simp [isOperand] at h
+    · simp [isVec] at h
+  | .bin o m l r =>
+    rcases hs with rfl | h | h
+    · simp only [printExpr, List.append_assoc]
+      simp [wf] at hwf
+      exact startOk_print l hwf.1.1.1.1.1 true (Or.inl rfl) _
+    · simp [isOperand] at h
+    · simp [isVec] at h
+  | .agg op wo g a =>
+    simp [wf] at hwf
+    simp only [printExpr, kwTok_eq, List.cons_append]
+    exact startOk_word _ _ _ _ (fun n hn => by cases hn; exact aggOp_not_mod _ hwf.1.1.1)
+  | .call f a =>
+    simp [wf] at hwf
+    simp only [printExpr, wordTok, List.cons_append, hwf.1.2]
+    simp [startOk]
+
+theorem noModStart_of_startOk (sign : Bool) (ts : List Tok) (h : startOk sign ts = true) : noModStart ts = true := by
+  cases ts with
+  | nil => rfl
+  | cons t ts =>
+    cases t <;> try rfl
+    rename_i k txt
+    cases k <;> try rfl
+    simpa [startOk, noModStart] using h
+
+theorem notSign_of_startOk (ts : List Tok) (h : startOk false ts = true) : notSign ts = true := by
+  cases ts with
+  | nil => rfl
+  | cons t ts =>
+    cases t <;> try rfl
+    rename_i o
+    cases o <;> simp [startOk] at h <;> rfl
+
+theorem not_rp_of_startOk (sign : Bool) (ts : List Tok) (h : startOk sign ts = true) : ∀ X, ts ≠ .rp :: X := by
+  intro X hX; subst hX; simp [startOk] at h
+
+/-! ## the main induction -/
+
+/-- operand followed by its postfix modifiers, as `parseExpr` runs them -/
+def atomPost (F : Nat) (ts : List Tok) : Option (Expr × List Tok) :=
+  match parseAtom F ts with
+  | some (a, ts1) => parsePostfix F a ts1
+  | none => none
+
+theorem parseExpr_neg (F p : Nat) (ts1 : List Tok) :
+    parseExpr (F + 1) p (.sym .sub :: ts1) = match parseExpr F unaryOperandPrec ts1 with
+      | some (x, ts2) => parseLoop F p (mkUnary true x) ts2
+      | none => none := by
+  first | rfl | (simp only [parseExpr]; rfl)
+
+theorem parseExpr_pos (F p : Nat) (ts1 : List Tok) :
+    parseExpr (F + 1) p (.sym .add :: ts1) = match parseExpr F unaryOperandPrec ts1 with
+      | some (x, ts2) => parseLoop F p (mkUnary false x) ts2
+      | none => none := by
+  first | rfl | (simp only [parseExpr]; rfl)
+
+theorem printArgs_cons2 (v : Variant) (e e' : Expr) (r' : Args) :
+    printArgs v (.cons e (.cons e' r')) = printExpr v e ++ .comma :: printArgs v (.cons e' r') := by
+  simp only [printArgs]
+
+theorem parseExpr_atomPost (F p : Nat) (ts : List Tok) (h : notSign ts = true) :
+    parseExpr (F + 1) p ts = match atomPost F ts with
+      | some (a', ts2) => parseLoop F p a' ts2
+      | none => none := by
+  rw [parseExpr_atom F p ts h]
+  unfold atomPost
+  cases parseAtom F ts with
+  | none => rfl
+  | some r => rfl
+
+/-- number of postfix modifiers printed after the operand's head -/
+def jc : Expr → Nat
+  | .vec s => selJ s
+  | .mat s _ => selJ s + 1
+  | .sub x _ _ a o => jc x + 1 + atJ a + offJ o
+  | _ => 0
+
+/-- what may follow an operand: the tokens after a complete expression, or the `[` of a subquery range -/
+def postOk (R : List Tok) : Prop := inert R = true ∨ ∃ R', R = .lb :: R'
+
+theorem inert_nameFollow (R : List Tok) (h : inert R = true) : nameFollow R = true := by
+  cases R with
+  | nil => rfl
+  | cons t ts =>
+    cases t <;> simp [inert, binOpOfTok] at h <;> try rfl
+    rename_i k txt
+    cases k <;> simp [binOpOfTok] at h <;> try rfl
+    rename_i n
+    simp [nameFollow, (wordOp_offset n (by simpa using h)).2]
+
+theorem postOk_nameFollow (R : List Tok) (h : postOk R) : nameFollow R = true := by
+  rcases h with h | ⟨R', rfl⟩
+  · exact inert_nameFollow R h
+  · rfl
+
+theorem nameFollow_selPost (s : Sel) (R : List Tok) (h : inert R = true) : nameFollow (selPost s ++ R) = true := by
+  unfold selPost
+  by_cases ha : s.atm = .none
+  · by_cases hx : s.offEx = []
+    · by_cases ho : s.off = 0
+      · simp [ha, hx, ho, printAt, printOffEx, printOffset, inert_nameFollow R h]
+      · simp [ha, hx, ho, printAt, printOffEx, printOffset, kwTok_eq, nameFollow, isGroupingKw]
+    · cases hl : s.offEx with
+      | nil => exact absurd hl hx
+      | cons x xs => simp [ha, printAt, printOffEx, kwTok_eq, nameFollow, isGroupingKw]
+  · cases hat : s.atm with
+    | none => exact absurd hat ha
+    | ts n => simp [printAt, nameFollow]
+    | start => simp [printAt, nameFollow]
+    | stop => simp [printAt, nameFollow]
+
+theorem aggSuffix_none (op : String) (args : Args) (R : List Tok) (h : postOk R) :
+    parseAggSuffix op args R = mkAgg op false [] args R := by
+  have := postOk_nameFollow R h
+  cases R with
+  | nil => rfl
+  | cons t ts =>
+    cases t <;> try rfl
+    rename_i k txt
+    cases k <;> try rfl
+    rename_i n
+    simp [nameFollow] at this
+    simp [parseAggSuffix, this]
+
+theorem normArgs_length : (a : Args) → (normArgs a).length = a.length
+  | .nil => rfl
+  | .cons _ r => by simp [normArgs, Args.length, normArgs_length r]
+
+theorem mkRange_operand (x : Expr) (h : isOperand x = true) (r st : Nat) :
+    mkRange (norm x) r st = some (.sub (norm x) r st .none 0) := by
+  cases x <;> simp [isOperand] at h <;> simp [norm, mkRange]
+
+theorem fitsAt_mono (p q : Nat) (e : Expr) (h : fitsAt q e = true) (hpq : p ≤ q) : fitsAt p e = true := by
+  cases e <;> simp [fitsAt] at h ⊢
+  omega
+
+theorem fitsAt_zero (e : Expr) : fitsAt 0 e = true := by
+  cases e <;> simp [fitsAt]
+
+theorem binOpOfTok_opTok (o : BinOp) : binOpOfTok (opTok o) = some o := by
+  cases o <;> decide
+
+theorem parseArgsWith_of (pa : List Tok → Option (Args × List Tok)) (a : Args) (hwf : wfArgs a = true) (R : List Tok)
+    (h : a ≠ .nil → pa (printArgs .fixed a ++ .rp :: R) = some (normArgs a, R)) :
+    parseArgsWith pa (printArgs .fixed a ++ .rp :: R) = some (normArgs a, R) := by
+  cases a with
+  | nil => simp [printArgs, parseArgsWith, normArgs]
+  | cons e r =>
+    have hh := h (by simp)
+    simp [wfArgs] at hwf
+    have hst : ∃ X, printArgs .fixed (.cons e r) ++ .rp :: R = printExpr .fixed e ++ X := by
+      cases r with
+      | nil => exact ⟨.rp :: R, by simp [printArgs]⟩
+      | cons e' r' => exact ⟨.comma :: (printArgs .fixed (.cons e' r') ++ .rp :: R), by simp [printArgs]⟩
+    obtain ⟨X, hX⟩ := hst
+    have hso := startOk_print e hwf.1 true (Or.inl rfl) X
+    rw [← hX] at hso
+    generalize printArgs .fixed (.cons e r) ++ .rp :: R = T at hso hh ⊢
+    cases T with
+    | nil => simpa [parseArgsWith] using hh
+    | cons t ts =>
+      cases t <;> simp [startOk] at hso <;> simpa [parseArgsWith] using hh
+
+theorem selJ_le (s : Sel) : selJ s ≤ 3 := by
+  simp only [selJ, atJ, exJ, offJ]; split <;> split <;> split <;> omega
+
+theorem jc_lt_need : (e : Expr) → jc e + 1 ≤ need e
+  | .vec s => by have := selJ_le s; simp only [jc, need]; omega
+  | .mat s r => by have := selJ_le s; simp only [jc, need]; omega
+  | .sub x r st a o => by
+    have := jc_lt_need x
+    simp only [jc, need, atJ, offJ]; split <;> split <;> omega
+  | .num _ | .str _ | .par _ | .un _ _ | .bin _ _ _ _ | .agg _ _ _ _ | .call _ _ => by simp [jc, need]
+
+theorem kk_atom (e : Expr) (h : isOperand e = true ∨ isVec e = true) : kk e = 1 := by
+  cases e <;> simp [isOperand, isVec] at h <;> rfl
+
+mutual
+/-- an operand followed by arbitrary further postfix input: its own modifiers are consumed and the postfix loop
+    continues from the (normalised) operand -/
+theorem atom_post (e : Expr) (hwf : wf e = true) (hop : isOperand e = true ∨ isVec e = true) (G : Nat) (R : List Tok)
+    (hG : need e ≤ G + jc e) (hR : postOk R) (hRv : isVec e = true → inert R = true) :
+    atomPost (G + jc e) (printExpr .fixed e ++ R) = parsePostfix G (norm e) R := by
+  match e with
+  | .num n =>
+    have hneg : n.neg = false := by simpa [isOperand, isVec] using hop
+    obtain ⟨G', rfl⟩ : ∃ G', G = G' + 1 := ⟨G - 1, by simp [need, jc] at hG; omega⟩
+    obtain ⟨neg, mag⟩ := n
+    simp at hneg; subst hneg
+    simp [jc, printExpr, printNum, numTok, atomPost, parseAtom, parseWordWith, norm]
+  | .str v =>
+    obtain ⟨G', rfl⟩ : ∃ G', G = G' + 1 := ⟨G - 1, by simp [need, jc] at hG; omega⟩
+    simp [jc, printExpr, atomPost, parseAtom, norm]
+  | .vec s =>
+    have hok : okSel s = true := by simpa [wf] using hwf
+    have hin := hRv rfl
+    simp only [jc, printExpr, printSel_eq, List.append_assoc, norm]
+    obtain ⟨T, hT⟩ : ∃ T, G + selJ s = T + 1 := ⟨G + selJ s - 1, by simp [need, jc] at hG; omega⟩
+    unfold atomPost
+    rw [hT, selHead_parse s hok T _ (by simp [need, jc] at hG; omega) (nameFollow_selPost s R hin), ← hT]
+    exact selPost_vec s hok G R
+  | .mat s r =>
+    have hw : okSel s = true ∧ r ≠ 0 := by simpa [wf] using hwf
+    simp only [jc, printExpr, printMat_eq, List.append_assoc, norm, List.cons_append]
+    obtain ⟨T, hT⟩ : ∃ T, G + (selJ s + 1) = T + 1 := ⟨G + selJ s, by omega⟩
+    unfold atomPost
+    rw [hT, selHead_parse s hw.1 T _ (by simp [need, jc] at hG; omega) rfl, ← hT]
+    exact selPost_mat s r hw.1 hw.2 G R
+  | .sub x r st a o =>
+    have hw : ((wf x = true ∧ isOperand x = true) ∧ r ≠ 0) ∧ st ≤ 1 := by simpa [wf] using hwf
+    obtain ⟨⟨⟨hwx, hox⟩, hr⟩, hst⟩ := hw
+    simp only [jc, printExpr, printSubSuffix, List.append_assoc, norm, List.cons_append]
+    rw [show G + (jc x + 1 + atJ a + offJ o) = (G + offJ o + atJ a + 1) + jc x by omega]
+    rw [atom_post x hwx (Or.inl hox) (G + offJ o + atJ a + 1) _ (by simp [need, jc] at hG; omega) (Or.inr ⟨_, rfl⟩)
+        (by intro hv; cases x <;> simp [isOperand, isVec] at hox hv)]
+    rw [post_subrange (norm x) _ r st hr hst (mkRange_operand x hox r st)]
+    rw [post_at_opt _ (.sub (norm x) r st a 0) a (by by_cases h : a = .none <;> simp [h, setAt])]
+    rw [post_off_opt _ (.sub (norm x) r st a o) o (by by_cases h : o = 0 <;> simp [h, addOffset])]
+  | .par x =>
+    have hwx : wf x = true := by simpa [wf] using hwf
+    simp only [jc, printExpr, norm, List.cons_append, List.append_assoc, List.nil_append, Nat.add_zero]
+    simp only [need, jc, Nat.add_zero] at hG
+    obtain ⟨Fx, rfl⟩ : ∃ Fx, G = (Fx + kk x) + 1 := ⟨G - kk x - 1, by omega⟩
+    have ih := parse_expr_print x hwx Fx 0 (.rp :: R) (by omega) (fitsAt_zero x) rfl (by simp [rstop, headOp, binOpOfTok])
+    obtain ⟨Fx', rfl⟩ : ∃ Fx', Fx = Fx' + 1 := ⟨Fx - 1, by omega⟩
+    rw [parseLoop_return Fx' 0 (norm x) (.rp :: R) rfl (by simp [headOp, binOpOfTok])] at ih
+    simp [atomPost, parseAtom, ih]
+  | .agg op wo g a =>
+    have hw : ((isAggOp op = true ∧ ∀ l ∈ g, okLabel l = true) ∧ wfArgs a = true) ∧ a.length = desiredArgs op := by
+      simpa [wf] using hwf
+    obtain ⟨⟨⟨hop', hg⟩, hwa⟩, hlen⟩ := hw
+    simp only [need, jc, Nat.add_zero] at hG
+    obtain ⟨G', rfl⟩ : ∃ G', G = G' + 1 := ⟨G - 1, by omega⟩
+    have hargs : ∀ R', parseArgsWith (parseArgs1 G') (printArgs .fixed a ++ .rp :: R') = some (normArgs a, R') := fun R' =>
+      parseArgsWith_of _ a hwa R' (fun hne => parse_args_print a hwa hne G' R' (by omega))
+    have hmk : mkAgg op wo g (normArgs a) R = some (.agg op wo g (normArgs a), R) := by
+      simp [mkAgg, normArgs_length, hlen]
+    simp only [jc, printExpr, norm, kwTok_eq, List.cons_append, List.append_assoc, List.nil_append, Nat.add_zero]
+    unfold atomPost
+    simp only [parseAtom, parseWordWith]
+    cases hwo : wo
+    · by_cases hge : g = []
+      · subst hge hwo
+        simp [printAggMod, hop', startsAgg, parseAggWith, hargs, aggSuffix_none _ _ _ hR, hmk]
+      · have hl := parseLabels_print g hg (.lp :: (printArgs .fixed a ++ .rp :: R))
+        subst hwo
+        simp [printAggMod, hge, kwTok_eq, hop', startsAgg, isGroupingKw, parseAggWith, hl, hargs, hmk]
+    · have hl := parseLabels_print g hg (.lp :: (printArgs .fixed a ++ .rp :: R))
+      subst hwo
+      simp [printAggMod, kwTok_eq, hop', startsAgg, isGroupingKw, parseAggWith, hl, hargs, hmk]
+  | .call f a =>
+    have hw : (isFunction f = true ∧ classifyKind f = .ident) ∧ wfArgs a = true := by simpa [wf] using hwf
+    obtain ⟨⟨hf, hk⟩, hwa⟩ := hw
+    simp only [need, jc, Nat.add_zero] at hG
+    obtain ⟨G', rfl⟩ : ∃ G', G = G' + 1 := ⟨G - 1, by omega⟩
+    have hargs : parseArgsWith (parseArgs1 G') (printArgs .fixed a ++ .rp :: R) = some (normArgs a, R) :=
+      parseArgsWith_of _ a hwa R (fun hne => parse_args_print a hwa hne G' R (by omega))
+    simp only [jc, printExpr, norm, wordTok, hk, List.cons_append, List.append_assoc, List.nil_append, Nat.add_zero]
+    simp [atomPost, parseAtom, parseWordWith, hf, hargs]
+  | .un n x => simp [isOperand, isVec] at hop
+  | .bin o m l r => simp [isOperand, isVec] at hop
+termination_by (sizeOf e, 0)
+
+/-- parsing the printed text of `e` in front of `rest` is the operator loop continued from (the normal form of) `e` -/
+theorem parse_expr_print (e : Expr) (hwf : wf e = true) (F p : Nat) (rest : List Tok)
+    (hF : need e ≤ F) (hp : fitsAt p e = true) (hi : inert rest = true) (hs : rstop e rest = true) :
+    parseExpr (F + kk e) p (printExpr .fixed e ++ rest) = parseLoop F p (norm e) rest := by
+  by_cases hop : isOperand e = true ∨ isVec e = true
+  · have hj := jc_lt_need e
+    obtain ⟨G, rfl⟩ : ∃ G, F = (G + 1) + jc e := ⟨F - jc e - 1, by omega⟩
+    have hap := atom_post e hwf hop (G + 1) rest (by omega) (Or.inl hi) (fun _ => hi)
+    rw [kk_atom e hop, parseExpr_atomPost _ _ _ (notSign_of_startOk _ (startOk_print e hwf false (Or.inr hop) rest)), hap,
+      post_done _ _ hi]
+  · match e with
+    | .num n =>
+      have hneg : n.neg = true := by simpa [isOperand, isVec] using hop
+      obtain ⟨neg, mag⟩ := n
+      simp at hneg; subst hneg
+      have hnan : mag ≠ "NaN" := by simpa [wf] using hwf
+      simp only [need] at hF
+      obtain ⟨F', rfl⟩ : ∃ F', F = F' + 2 := ⟨F - 2, by omega⟩
+      have hq : ∀ o, headOp rest = some o → o.prec < unaryOperandPrec := by
+        intro o ho; simpa [rstop, ho, stopsBefore] using hs
+      have h1 : parseExpr (F' + 1 + 1) unaryOperandPrec (numTok mag :: rest) = some (.num ⟨false, mag⟩, rest) := by
+        rw [parseExpr_atomPost _ _ _ rfl]
+        simp [atomPost, numTok, parseAtom, parseWordWith, post_done _ _ hi, parseLoop_return _ _ _ _ hi hq]
+      simp only [kk, printExpr, printNum, if_true, List.cons_append, List.nil_append, norm]
+      rw [parseExpr_neg, h1]
+      simp [mkUnary, negNum, hnan]
+    | .un n x =>
+      have hw : (wf x = true ∧ isNum x = false) ∧ fitsAt unaryOperandPrec x = true := by simpa [wf] using hwf
+      obtain ⟨⟨hwx, hnx⟩, hfx⟩ := hw
+      simp only [need] at hF
+      obtain ⟨Fx, rfl⟩ : ∃ Fx, F = (Fx + 1) + kk x := ⟨F - kk x - 1, by omega⟩
+      have hrs : rstop x rest = true ∧ ∀ o, headOp rest = some o → o.prec < unaryOperandPrec := by
+        unfold rstop at hs ⊢
+        cases ho : headOp rest with
+        | none => simp
+        | some o => simp [ho, stopsBefore] at hs; simp [hs]
+      have ih := parse_expr_print x hwx (Fx + 1) unaryOperandPrec rest (by omega) hfx hi hrs.1
+      rw [parseLoop_return _ _ _ _ hi hrs.2] at ih
+      have hmk : mkUnary n (norm x) = .un n (norm x) := by
+        cases x <;> simp [isNum] at hnx <;> simp [norm, mkUnary]
+      cases n
+      · simp only [kk, printExpr, norm, List.cons_append, if_false, Bool.false_eq_true]
+        rw [parseExpr_pos, ih]; simp only [hmk]
+      · simp only [kk, printExpr, norm, List.cons_append, if_true]
+        rw [parseExpr_neg, ih]; simp only [hmk]
+    | .bin o m l r =>
+      have hw : ((((wf l = true ∧ wf r = true) ∧ wfMod m = true) ∧ fitsAt o.prec l = true) ∧ stopsBefore l o.prec = true) ∧
+          fitsAt (rhsPrec o) r = true := by simpa [wf] using hwf
+      obtain ⟨⟨⟨⟨⟨hwl, hwr⟩, hwm⟩, hfl⟩, hsl⟩, hfr⟩ := hw
+      have hpo : p ≤ o.prec := by simpa [fitsAt] using hp
+      simp only [need] at hF
+      have hrs : rstop r rest = true ∧ ∀ o', headOp rest = some o' → o'.prec < rhsPrec o := by
+        unfold rstop at hs ⊢
+        cases ho : headOp rest with
+        | none => simp
+        | some o' => simp [ho, stopsBefore] at hs; simp [hs]
+      simp only [kk, printExpr, norm, List.append_assoc, List.cons_append]
+      rw [show F + (kk l + 1) = (F + 1) + kk l by omega]
+      rw [parse_expr_print l hwl (F + 1) p _ (by omega) (fitsAt_mono p o.prec l hfl hpo)
+          (by simp [inert, binOpOfTok_opTok]) (by simp [rstop, headOp, binOpOfTok_opTok, hsl])]
+      have hmods := parseMods_print m hwm (printExpr .fixed r ++ rest)
+        (noModStart_of_startOk true _ (startOk_print r hwr true (Or.inl rfl) rest))
+      obtain ⟨Fr, rfl⟩ : ∃ Fr, F = (Fr + 1) + kk r := ⟨F - kk r - 1, by omega⟩
+      have ihr := parse_expr_print r hwr (Fr + 1) (rhsPrec o) rest (by omega) hfr hi hrs.1
+      rw [parseLoop_return _ _ _ _ hi hrs.2] at ihr
+      have hnlt : ¬ o.prec < p := by omega
+      simp [parseLoop, binOpOfTok_opTok, hnlt, hmods, ihr]
+    | .str v => simp [isOperand] at hop
+    | .vec s => simp [isVec] at hop
+    | .mat s r => simp [isOperand] at hop
+    | .sub x r st a o => simp [isOperand] at hop
+    | .par x => simp [isOperand] at hop
+    | .agg op wo g a => simp [isOperand] at hop
+    | .call f a => simp [isOperand] at hop
+termination_by (sizeOf e, 1)
+
+theorem parse_args_print (a : Args) (hwf : wfArgs a = true) (hne : a ≠ .nil) (F : Nat) (rest : List Tok)
+    (hF : needArgs a ≤ F) :
+    parseArgs1 F (printArgs .fixed a ++ .rp :: rest) = some (normArgs a, rest) := by
+  match a with
+  | .nil => exact absurd rfl hne
+  | .cons e r =>
+    have hw : wf e = true ∧ wfArgs r = true := by simpa [wfArgs] using hwf
+    simp only [needArgs] at hF
+    obtain ⟨Fe, rfl⟩ : ∃ Fe, F = ((Fe + 1) + kk e) + 1 := ⟨F - kk e - 2, by omega⟩
+    have ihr := fun hne' hF' => parse_args_print r hw.2 hne' ((Fe + 1) + kk e) rest hF'
+    have ihe := fun R hR => parse_expr_print e hw.1 (Fe + 1) 0 R (by omega) (fitsAt_zero e) hR
+    cases r with
+    | nil =>
+      have ih := ihe (.rp :: rest) rfl (by simp [rstop, headOp, binOpOfTok])
+      rw [parseLoop_return _ _ _ _ rfl (by simp [headOp, binOpOfTok])] at ih
+      simp [printArgs, parseArgs1, ih, normArgs]
+    | cons e' r' =>
+      have ih := ihe (.comma :: (printArgs .fixed (.cons e' r') ++ .rp :: rest)) rfl (by simp [rstop, headOp, binOpOfTok])
+      rw [parseLoop_return _ _ _ _ rfl (by simp [headOp, binOpOfTok])] at ih
+      have ihr' := ihr (by simp) (by simp only [needArgs] at hF ⊢; omega)
+      rw [printArgs_cons2]
+      simp only [List.append_assoc, List.cons_append, parseArgs1, ih, ihr']
+      simp only [normArgs]
+termination_by (sizeOf a, 0)
+end
+
+/-! ## the round-trip theorem -/
+
+theorem parseFuel_print (e : Expr) (hwf : wf e = true) (f : Nat) (hf : need e + kk e ≤ f) :
+    parseFuel f (printExpr .fixed e) = some (norm e) := by
+  obtain ⟨F, rfl⟩ : ∃ F, f = (F + 1) + kk e := ⟨f - kk e - 1, by have := jc_lt_need e; omega⟩
+  have h := parse_expr_print e hwf (F + 1) 0 [] (by have := jc_lt_need e; omega) (fitsAt_zero e) rfl rfl
+  rw [List.append_nil] at h
+  simp [parseFuel, h, parseLoop]
 
 end SH.Props.C28
+
